@@ -161,18 +161,17 @@ impl VouchedTime {
             return Err(other("local time is out of range"));
         }
 
-        let local_time_ms = local_time_ms as u64;
         // if local_time - base_time in [-MAX_BACKWARD_DISCREPANCY_MS, MAX_FORWARD_DISCREPANCY_MS]
         //
-        // We subtract base_time_ns, and add MAX_BACKWARD_DISCREPANCY_MS.  This maps the
-        // allowed range to `[0, MAX_BACKWARD_DISCREPANCY_MS + MAX_FORWARD_DISCREPANCY_MS]`.
-        if local_time_ms
-            .wrapping_sub(base_time_ms)
-            .wrapping_add(MAX_BACKWARD_DISCREPANCY_MS)
-            <= MAX_BACKWARD_DISCREPANCY_MS + MAX_FORWARD_DISCREPANCY_MS
+        // Both values fit in 64 bits, so the difference can't wrap in `i128`.
+        let delta = local_time_ms - (base_time_ms as i128);
+        if (-(MAX_BACKWARD_DISCREPANCY_MS as i128) <= delta)
+            & (delta <= MAX_FORWARD_DISCREPANCY_MS as i128)
         {
             return Ok(());
         }
+
+        let local_time_ms = local_time_ms as u64;
 
         if local_time_ms > base_time_ms {
             return Err(other("local_time is too far ahead of base_time"));
